@@ -36,6 +36,9 @@ def build_world():
     for rel, c in [("secret.txt", "OUT:secret.txt"), ("a.txt", "OUT:a.txt")]:
         with open(os.path.join(base, "outside", rel), "w") as f:
             f.write(c)
+    os.makedirs(os.path.join(base, "rootx"))
+    with open(os.path.join(base, "rootx", "a.txt"), "w") as f:
+        f.write("OUT:rootx/a.txt")
     tree(os.path.join(base, "root"))
     pkg = os.path.join(base, "pk", "vpkg22")
     os.makedirs(pkg)
@@ -99,7 +102,7 @@ def replay_chunk(reqs):
             nm = name_of(req, base, pkg=(lname == "pkg"))
             for how in ("sync", "async"):
                 got = ask(env, nm, how)
-                if got != req["expect"] and got != req["also"]:
+                if got != req["expect"] and got != req["also"] and got not in req["upwards"]:
                     bad.append((lname, how, nm, got))
         out.append(bad)
     return out
